@@ -1,6 +1,6 @@
 (* Executable encodings used by checks/c17.py (compiled once). *)
 From Coq Require Import ZArith NArith List Bool.
-From SlskGen Require Import TransGen.
+From SlskGen Require Import TransGen TransferGen.
 From Slsk Require Import C03.Spec C03.Model C03.Eval.
 Import ListNotations.
 Open Scope Z_scope.
@@ -10,7 +10,7 @@ Definition HH (x : list N) : KK := x.    (* an injective stand-in for sha256: ke
 Definition zob (o : option N) : Z := match o with None => -1 | Some n => Z.of_N n end.
 Definition enc_m (m : mt) : list Z :=
   [Z.of_nat (length (m_user m))] ++ map Z.of_N (m_user m) ++ [Z.of_nat (length (m_path m))] ++ map Z.of_N (m_path m) ++
-  [match m_dir m with Upload => 0 | Download => 1 end; st_value (m_state m); zob (m_local m); zb (m_rq m); zob (m_place m);
+  [Z.of_nat (dir_value (m_dir m)); st_value (m_state m); zob (m_local m); zb (m_rq m); zob (m_place m);
    zob (m_fail m); zob (m_abort m); zob (m_filesize m); Z.of_N (m_bytes m); Z.of_N (m_qatt m); Z.of_N (m_uatt m);
    zob (m_start m); zob (m_complete m); zb (m_offset m); zb (m_registered m)].
 Definition enc_om (o : option mt) : list Z := match o with Some m => enc_m m | None => [-99] end.
